@@ -83,7 +83,7 @@ the very instant of the operation. (`TimersOk`: no timer holds a submission — 
 harness calls.) -/
 theorem cancel_is_immediate (fix : Fix) (s : St) (q : Seq) (opId : Nat) (op : Op) (n : Nat)
     (hq : s.port.seq = some q) (hf : q.id < s.nextId) (ht : Cancel.TimersOk q.id s)
-    (hw : s.waiting = none) (hop : Stops s op) :
+    (hw : s.cancelling = false) (hop : Stops s op) :
     let s' := iterN fix n (startOp fix s opId op)
     Cancel.committed q.id s' = Cancel.committed q.id s ∧
     ∃ l, subsOfSid q.id s'.log = subsOfSid q.id s.log ++ l ∧ ∀ e ∈ l, e.1 = s.now := by
@@ -95,7 +95,7 @@ the task sleeps until t = 100; disabling then leaves the log at that one value f
 example :
     (iterN Fix.repaired 2 (St.installed 0 [.num 2, .num 4] [100, 100] 0)).port.seq.map (·.id) = some 0 ∧
     (iterN Fix.repaired 2 (St.installed 0 [.num 2, .num 4] [100, 100] 0)).nextId = 1 ∧
-    (iterN Fix.repaired 2 (St.installed 0 [.num 2, .num 4] [100, 100] 0)).waiting = none ∧
+    (iterN Fix.repaired 2 (St.installed 0 [.num 2, .num 4] [100, 100] 0)).cancelling = false ∧
     Stops (iterN Fix.repaired 2 (St.installed 0 [.num 2, .num 4] [100, 100] 0)) (.setEnabled false) ∧
     subsOf (iterN Fix.repaired 2 (St.installed 0 [.num 2, .num 4] [100, 100] 0)).log = [(0, .num 2)] ∧
     subsOf (iterN Fix.repaired 6 (startOp Fix.repaired
@@ -146,7 +146,7 @@ example : validate 256 { Port.default with hasExpr := true } [.num 2] [5] = some
 
 /-- A refused request changes nothing but the answer: the running sequence, the queue and the timers are untouched. -/
 theorem refusal_touches_nothing (fix : Fix) (s : St) (opId : Nat) (vs : List Val) (ds : List Int) (r : Int) (e : Err)
-    (hw : s.waiting = none) (hv : validate s.maxItems s.port vs ds = some e) :
+    (hw : s.cancelling = false) (hv : validate s.maxItems s.port vs ds = some e) :
     startOp fix s opId (.patchSeq vs ds r) = s.emit (.ret s.now opId (.refused e)) :=
   startOp_refused fix s opId vs ds r e hw hv
 
